@@ -191,4 +191,15 @@ def packageSlices (pkg : SecKind → Bytes) (cols : List (SecKind × Nat × Nat)
     let rest ← packageSlices pkg cols ks
     pure ((k, s) :: rest)
 
+/-- `DwarfPackage::find_cu` / `find_tu` up to the slicing: `find`, then `sections(row)`, then the
+ten `dwp_range` calls; `Ok(None)` when the id is not in the index -/
+def findUnit (e : Endian) (ix : UnitIndex) (pkg : SecKind → Bytes) (id : Nat) :
+    Out (Option (Nat × List (SecKind × Bytes))) :=
+  match find e ix id with
+  | none => .ok none
+  | some row => do
+    let cols ← sections e ix row
+    let slices ← packageSlices pkg cols sliceOrder
+    pure (some (row, slices))
+
 end Gimli.Index
